@@ -153,6 +153,9 @@ func caseOtEntry(r *vk.Run, b []byte, bucket string) {
 
 // ---- tbtree parameters from the commit-log metadata ----
 func caseOtParams(r *vk.Run, md []byte, dir string, bucket string) {
+	if tooManyHangs() {
+		return
+	}
 	in := vk.Exact(md)
 	const okey, oval = 32, 64
 	opts := tbtree.DefaultOptions().WithMaxKeySize(okey).WithMaxValueSize(oval).
@@ -245,6 +248,9 @@ func buildLeaf(rng *rand.Rand, n int) *nodeBuilder {
 }
 
 func caseOtNode(r *vk.Run, log []byte, off int, bucket string) {
+	if tooManyHangs() {
+		return
+	}
 	in := vk.Exact(log)
 	var inner bool
 	var refs []tbtree.VerifNodeRef
@@ -303,6 +309,9 @@ func caseOtTs(r *vk.Run, b []byte, dir string, bucket string) {
 func ahEntry(poff uint64, psize uint32) []byte { return append(u64b(poff), u32b(psize)...) }
 
 func caseOtAhOpen(r *vk.Run, nentries int, last []byte, pfile, dfile int64, bucket string) {
+	if tooManyHangs() {
+		return
+	}
 	clog := make([]byte, 0, 12*nentries)
 	for i := 0; i < nentries-1; i++ {
 		clog = append(clog, ahEntry(uint64(i*8), 4)...)
@@ -338,6 +347,9 @@ func caseOtAhOpen(r *vk.Run, nentries int, last []byte, pfile, dfile int64, buck
 // caseOtAhData: a tree of 3 leaves whose payload log holds plog bytes; the commit-log entry of
 // leaf 1 is `entry`
 func caseOtAhData(r *vk.Run, entry []byte, plog int, bucket string) {
+	if tooManyHangs() {
+		return
+	}
 	clog := append(vk.Clone(entry), ahEntry(8, 4)...)
 	clog = append(clog, ahEntry(uint64(plog-8), 4)...)
 	cLog := newMemApp(clog)
@@ -504,6 +516,9 @@ func patchMetaInt(path, key string, v uint64) bool {
 // probeAppendableHeaders: the chunk size of a multi-file appendable and the compression format of
 // a single-file appendable are read from the file header and used without validation
 func probeAppendableHeaders(r *vk.Run, dir string) {
+	if tooManyHangs() {
+		return
+	}
 	mk := func(name string) string {
 		p := filepath.Join(dir, name)
 		os.RemoveAll(p)
